@@ -1,5 +1,5 @@
 """C01 Value lanes: subscribers see an ordered, gap-tolerant, never-stale view."""
-from mirlib import AnchorMissing, describe_operand, describe_place, describe_rvalue, dom_guards, guards, _suffix_match
+from mirlib import describe_call, AnchorMissing, describe_operand, describe_place, describe_rvalue, dom_guards, guards, _suffix_match
 from rules import uplinks
 from rules.common import ty_of, aggregates, callers_by_name, calls_on_field, field_writes, owner_def, where
 
@@ -24,6 +24,63 @@ def is_item_writers(b, op):
     """the map from item id to the item's writer token, recognised by its type (its name is a local's and may change)"""
     t = ty_of(b, op)
     return "HashMap<" in t and "io::ItemWriter" in t
+
+
+WRITE_RESULTS = ("NoData", "Done", "RequiresEvent", "DataStillAvailable")
+
+
+def _wr_consistent(g, v):
+    """can a site with these dominating guards be reached when write_event answered Some(v)?"""
+    import re as _re
+    for d, l, _ in g:
+        if d.startswith("disc(write_event(") and d.endswith("<Some>.0)"):
+            if l in WRITE_RESULTS and l != v:
+                return False
+        m = _re.match(r"^(ne|eq)\(.*WriteResult::(\w+)\(\)\)$", d)
+        if m and l in ("true", "false"):
+            holds = (v != m.group(2)) if m.group(1) == "ne" else (v == m.group(2))
+            if holds != (l == "true"):
+                return False
+    return True
+
+
+def _wr_value(d, v):
+    import re as _re
+    if d in ("True", "False"):
+        return d == "True"
+    m = _re.match(r"^(ne|eq)\(.*WriteResult::(\w+)\(\)\)$", d)
+    if m:
+        return (v != m.group(2)) if m.group(1) == "ne" else (v == m.group(2))
+    return None
+
+
+def write_back_table(r, b, we):
+    """The dirty_items.retain closure of run_agent: what happens for each answer of write_event. Done -> written, lane clean, no handler; RequiresEvent ->
+    written, lane clean, the lane's lifecycle handler runs when the write completes; DataStillAvailable -> written, lane stays dirty, no handler."""
+    rets = [(i, describe_rvalue(b, rv)) for i, j, p, rv, line in b.assigns() if p[0] == 0 and not p[1]]
+    rets += [(c.block, describe_call(b, c)) for c in b.calls if c.dest is not None and c.dest[0] == 0 and not c.dest[1]]
+    dw = [c for c in b.calls if c.name == "do_write"]
+    want = {"Done": (False, False), "RequiresEvent": (False, True), "DataStillAvailable": (True, False)}
+    for v, (stay, flag) in want.items():
+        sites = [c for c in dw if _wr_consistent(dom_guards(b, c.block), v)]
+        flags = {_wr_value(describe_operand(b, c.args[1]), v) for c in sites}
+        r.check(len(sites) >= 1 and flags == {flag}, "retain/do_write-flag/%s" % v, sites[0].loc() if sites else we.loc(), "after %s: do_write(tx, %s)" % (v, str(flag).lower()),
+                "after write_event answered %s the write is scheduled with requires_event = %s (expected %s): %s" % (
+                    v, sorted(str(x) for x in flags), flag,
+                    "the lane's lifecycle handlers are run again when the write completes although nothing changed (on_event / on_set with no previous value, and every handler they trigger)" if flag is False
+                    else "the handler the lane asked for is never run"))
+        for c in sites:
+            ps = [x for x in b.calls if x.name == "push" and (x.self_adt or "").endswith("futures_unordered::FuturesUnordered") and b.dominates(c.block, x.block)]
+            r.check(bool(ps), "retain/do_write-scheduled/%s" % v, c.loc(), "the write future is pushed to pending_writes")
+        # what retain answers on the paths that performed this write
+        ans = set()
+        for c in sites:
+            for i, d in rets:
+                if (b.dominates(c.block, i) or b.reaches(c.block, {i})) and _wr_consistent(dom_guards(b, i), v):
+                    ans.add(_wr_value(d, v))
+        key = "retain/DataStillAvailable=>stay-dirty" if v == "DataStillAvailable" else "retain/%s=>clean" % v
+        r.check(ans == {stay}, key, we.loc(), "%s: the lane %s dirty_items" % (v, "stays in" if stay else "leaves"), "%s: retain answers %s (expected %s)" % (v, sorted(str(x) for x in ans), stay))
+    return dw
 
 
 def run(ctx):
@@ -97,24 +154,8 @@ def run(ctx):
         rets = {i: describe_rvalue(b, rv) for i, j, p, rv, line in b.assigns() if p[0] == 0 and not p[1]}
         none_rets = [v for i, v in rets.items() if b.dominates(ve["None"], i)]
         r.check(none_rets == ["True"], "retain/no-writer=>stay-dirty", rm[0].loc(), "while the writer is lent out the lane stays in dirty_items", "without a writer the lane is dropped from dirty_items: its change is never published")
-        # per write result
-        table = {}
-        for i, v in rets.items():
-            g = dom_guards(b, i)
-            res = [l for d, l, _ in g if d.startswith("disc(write_event(") and d.endswith("<Some>.0)")]
-            if res:
-                table.setdefault(res[0], set()).add(v)
-        r.check(table.get("DataStillAvailable") == {"True"}, "retain/DataStillAvailable=>stay-dirty", we[0].loc(), "DataStillAvailable keeps the lane dirty", "DataStillAvailable result: %s" % table.get("DataStillAvailable"))
-        r.check(table.get("Done") == {"False"} and table.get("RequiresEvent") == {"False"}, "retain/Done=>clean", we[0].loc(), "Done / RequiresEvent remove the lane from dirty_items")
-        dw = [c for c in b.calls if c.name == "do_write"]
-        for c in dw:
-            g = dom_guards(b, c.block)
-            res = [l for d, l, _ in g if d.startswith("disc(write_event(") and d.endswith("<Some>.0)")]
-            flag = describe_operand(b, c.args[1])
-            want = "True" if res == ["RequiresEvent"] else "False"
-            r.check(flag == want, "retain/do_write-flag/%s" % (res[0] if res else "?"), c.loc(), "do_write(tx, %s) for %s" % (flag, res), "do_write(tx, %s) for %s" % (flag, res))
-            ps = [x for x in b.calls if x.name == "push" and (x.self_adt or "").endswith("futures_unordered::FuturesUnordered") and b.dominates(c.block, x.block)]
-            r.check(bool(ps), "retain/do_write-scheduled/%s" % (res[0] if res else "?"), c.loc(), "the write future is pushed to pending_writes")
+        # per write result (evaluated per variant, however the arms are written: one arm each, or merged arms with `result != Done` style expressions)
+        dw = write_back_table(r, b, we[0])
         back = {c.block for c in b.calls if c.name == "insert" and is_item_writers(b, c.args[0])}
         ok, wit = b.must_pass([ve["Some"]], {c.block for c in dw} | back)
         r.check(ok, "retain/removed-writer-not-dropped", rm[0].loc(), "a writer taken out of item_writers always goes into do_write or back into item_writers",
